@@ -224,6 +224,40 @@ def validate_traces(trace_module, events, workdir, chunk=20000, cfg=None):
     return verdicts, len(events), cmd
 
 
+# --------------------------------------------------------------------------- "a message": whatever channel carries it
+
+class Capture:
+    """Collects what a call reports while it runs, on any of the channels a library may use for a message: standard output,
+    standard error, the warnings module, the logging module.  .any: something was reported."""
+
+    def __enter__(self):
+        import contextlib, io, logging, warnings
+        self._out, self._err = io.StringIO(), io.StringIO()
+        self._stack = contextlib.ExitStack()
+        self._stack.enter_context(contextlib.redirect_stdout(self._out))
+        self._stack.enter_context(contextlib.redirect_stderr(self._err))
+        self._warn = self._stack.enter_context(warnings.catch_warnings(record=True))
+        warnings.simplefilter("always")
+        self._records = []
+        self._handler = logging.Handler()
+        self._handler.emit = self._records.append
+        logging.getLogger().addHandler(self._handler)
+        self._level = logging.getLogger().level
+        logging.getLogger().setLevel(logging.DEBUG)
+        return self
+
+    def __exit__(self, *exc):
+        import logging
+        logging.getLogger().removeHandler(self._handler)
+        logging.getLogger().setLevel(self._level)
+        self._stack.close()
+        return False
+
+    @property
+    def any(self):
+        return bool(self._out.getvalue() or self._err.getvalue() or self._warn or self._records)
+
+
 # --------------------------------------------------------------------------- robustness of the drivers
 
 def broken_event(eid, item, ex):
